@@ -753,4 +753,225 @@ theorem elastic_setter_roundtrip (fac : String → K) (eps atol rtol : K) (h0 : 
   exact ⟨t', e1, by rw [e2]; exact hidem, by rw [e3]; exact hidem⟩
 
 end ordered
+/-! ## `System.model` with a selection of the properties (`prop_unit=` / `prop_name=`, `unit=`) -/
+
+section select
+
+/-- the `System` that holds only the selected properties, in the selected order (what
+    `System.model(prop_unit=pu)` looks at). -/
+def SystemM.select (s : SystemM K) (pu : List (String × Option String)) : SystemM K :=
+  { s with atoms := ⟨s.atoms.natoms,
+      pu.filterMap (fun e => (s.atoms.props.lookup e.1).map (fun arr => (e.1, arr)))⟩ }
+
+/-- the unit the selection asks for the property `name` (`none` also when it is not selected). -/
+def selUnit (pu : List (String × Option String)) (name : String) : Option String := (pu.lookup name).join
+
+theorem lookup_filterMap_sel {α : Type} (props : List (String × α)) :
+    ∀ (pu : List (String × Option String)) (k : String), k ∈ pu.map Prod.fst →
+      (pu.filterMap (fun e => (props.lookup e.1).map (fun arr => (e.1, arr)))).lookup k = props.lookup k := by
+  intro pu
+  induction pu with
+  | nil => intro k hk; simp at hk
+  | cons e pu ih =>
+    intro k hk
+    by_cases hke : k = e.1
+    · subst hke
+      cases hl : props.lookup e.1 with
+      | none =>
+        simp only [List.filterMap_cons, hl, Option.map_none]
+        -- not present in `props`: the filtered list has no entry with that key either
+        have : ∀ (q : List (String × Option String)),
+            (q.filterMap (fun e' => (props.lookup e'.1).map (fun arr => (e'.1, arr)))).lookup e.1 = none := by
+          intro q
+          induction q with
+          | nil => rfl
+          | cons e' q ihq =>
+            simp only [List.filterMap_cons]
+            cases hl' : props.lookup e'.1 with
+            | none => simpa using ihq
+            | some arr =>
+              simp only [Option.map_some, List.lookup]
+              have hne : (e.1 == e'.1) = false := by
+                apply beq_false_of_ne
+                intro h; rw [h] at hl; rw [hl] at hl'; cases hl'
+              simp [hne, ihq]
+        exact this pu
+      | some arr => simp [hl]
+    · have hk' : k ∈ pu.map Prod.fst := by
+        simp only [List.map_cons, List.mem_cons] at hk
+        exact hk.resolve_left hke
+      simp only [List.filterMap_cons]
+      cases hl : props.lookup e.1 with
+      | none => simpa using ih k hk'
+      | some arr =>
+        have hne : (k == e.1) = false := beq_false_of_ne hke
+        simp [List.lookup, hne, ih k hk']
+
+theorem lookup_of_nodup {β : Type} : ∀ (pu : List (String × β)), (pu.map Prod.fst).Nodup →
+    ∀ e ∈ pu, pu.lookup e.1 = some e.2 := by
+  intro pu
+  induction pu with
+  | nil => intro _ e he; cases he
+  | cons a pu ih =>
+    intro hnd e he
+    rcases List.mem_cons.mp he with rfl | he'
+    · simp [List.lookup]
+    · have hnot : a.1 ∉ pu.map Prod.fst := (List.nodup_cons.mp hnd).1
+      have hne : (e.1 == a.1) = false :=
+        beq_false_of_ne (fun h => hnot (h ▸ List.mem_map.mpr ⟨e, he', rfl⟩))
+      simp only [List.lookup, hne]
+      exact ih (List.nodup_cons.mp hnd).2 e he'
+
+theorem filterMap_sel_map {α β : Type} (props : List (String × α)) (g : String → β) :
+    ∀ (pu : List (String × Option String)), (∀ e ∈ pu, ∃ arr, props.lookup e.1 = some arr) →
+      (pu.filterMap (fun e => (props.lookup e.1).map (fun arr => (e.1, arr)))).map (fun p => (p.1, g p.1))
+        = pu.map (fun e => (e.1, g e.1)) := by
+  intro pu
+  induction pu with
+  | nil => intro _; rfl
+  | cons e pu ih =>
+    intro hmem
+    obtain ⟨arr, harr⟩ := hmem e (by simp)
+    simp only [List.filterMap_cons, harr, Option.map_some, List.map_cons]
+    rw [ih (fun e' he' => hmem e' (List.mem_cons_of_mem _ he'))]
+
+theorem select_props_units (s : SystemM K) (pu : List (String × Option String))
+    (hnd : (pu.map Prod.fst).Nodup) (hmem : ∀ e ∈ pu, ∃ arr, s.atoms.props.lookup e.1 = some arr) :
+    (s.select pu).atoms.props.map (fun p => (p.1, selUnit pu p.1)) = pu := by
+  unfold SystemM.select
+  simp only
+  rw [filterMap_sel_map _ _ pu hmem]
+  conv_rhs => rw [← List.map_id pu]
+  apply List.map_congr_left
+  intro e he
+  simp [selUnit, lookup_of_nodup pu hnd e he]
+
+section field
+variable [Field K]
+
+theorem sysPropModel_select (fac : String → K) (s : SystemM K) (pu : List (String × Option String))
+    (e : String × Option String) (he : e ∈ pu) :
+    sysPropModel fac (s.select pu) e = sysPropModel fac s e := by
+  have hl : (s.select pu).atoms.props.lookup e.1 = s.atoms.props.lookup e.1 :=
+    lookup_filterMap_sel _ pu e.1 (List.mem_map.mpr ⟨e, he, rfl⟩)
+  simp only [sysPropModel, propModel, hl]
+  rfl
+
+theorem mapOpt_congr {α β : Type} (f g : α → Option β) : ∀ (l : List α), (∀ x ∈ l, f x = g x) → mapOpt f l = mapOpt g l := by
+  intro l
+  induction l with
+  | nil => intro _; rfl
+  | cons a l ih =>
+    intro h
+    simp only [mapOpt, h a (by simp), ih (fun x hx => h x (List.mem_cons_of_mem _ hx))]
+
+/-- **writing a selection = writing every property of the System that holds just the selected ones** -/
+theorem systemModel_select (fac : String → K) (boxUnit : Option String) (s : SystemM K)
+    (pu : List (String × Option String)) (hnd : (pu.map Prod.fst).Nodup)
+    (hmem : ∀ e ∈ pu, ∃ arr, s.atoms.props.lookup e.1 = some arr) :
+    systemModel fac boxUnit pu s =
+      systemModel fac boxUnit ((s.select pu).atoms.props.map (fun p => (p.1, selUnit pu p.1))) (s.select pu) := by
+  rw [select_props_units s pu hnd hmem]
+  have h := mapOpt_congr (sysPropModel fac (s.select pu)) (sysPropModel fac s) pu
+    (fun e he => sysPropModel_select fac s pu e he)
+  simp only [systemModel, h]
+  rfl
+
+/-- **system_model_select**: `System(model=system.model(box_unit=…, prop_unit=pu))` for a *selection* `pu` of the
+    properties (any subset, any order, any admissible units, as long as the selected properties alone make a
+    well-formed `System`, i.e. `atype` and `pos` are selected first - `select_wf`): cell, origin, flags, symbols,
+    masses and `natoms` come back, and exactly the selected properties, in the selected order, each with its
+    shape and buffer (box-scaled ones included). -/
+theorem system_model_select [LT K] [DecidableLT K] (fac : String → K) (eps : K) (boxUnit : Option String)
+    (s : SystemM K) (pu : List (String × Option String)) (hnd : (pu.map Prod.fst).Nodup)
+    (hmem : ∀ e ∈ pu, ∃ arr, s.atoms.props.lookup e.1 = some arr)
+    (hw : (s.select pu).Wf) (hu : SysUnitsOk (s.select pu).atoms (selUnit pu))
+    (hb : cleanVects eps s.box.vects = s.box.vects)
+    (hfb : ∀ u, boxUnit = some u → factor fac u ≠ 0)
+    (hf : ∀ p ∈ (s.select pu).atoms.props, ∀ u, effUnit p.1 (selUnit pu p.1) = some u → factor fac u ≠ 0)
+    (hdet : (∃ p ∈ (s.select pu).atoms.props, effUnit p.1 (selUnit pu p.1) = some "scaled") → M3.det s.box.vects ≠ 0) :
+    ∃ t, systemModel fac boxUnit pu s = some t ∧
+      systemRead fac eps t = some ⟨s.box, s.pbc, s.symbols, s.masses,
+        ⟨s.atoms.natoms, (s.select pu).atoms.props.map
+          (fun p => (p.1, ⟨p.2.shape, p.2.data.castU (effUnit p.1 (selUnit pu p.1))⟩))⟩⟩ := by
+  rw [systemModel_select fac boxUnit s pu hnd hmem]
+  exact system_model_roundtrip fac eps boxUnit (s.select pu) hw (selUnit pu) hu hb hfb hf hdet
+
+/-- the same through XML text. -/
+theorem system_model_select_xml [LT K] [DecidableLT K] (fac : String → K) (eps : K) (boxUnit : Option String)
+    (s : SystemM K) (pu : List (String × Option String)) (hnd : (pu.map Prod.fst).Nodup)
+    (hmem : ∀ e ∈ pu, ∃ arr, s.atoms.props.lookup e.1 = some arr)
+    (hw : (s.select pu).Wf) (hu : SysUnitsOk (s.select pu).atoms (selUnit pu))
+    (hb : cleanVects eps s.box.vects = s.box.vects)
+    (hfb : ∀ u, boxUnit = some u → factor fac u ≠ 0)
+    (hf : ∀ p ∈ (s.select pu).atoms.props, ∀ u, effUnit p.1 (selUnit pu p.1) = some u → factor fac u ≠ 0)
+    (hdet : (∃ p ∈ (s.select pu).atoms.props, effUnit p.1 (selUnit pu p.1) = some "scaled") → M3.det s.box.vects ≠ 0) :
+    ∃ t, systemModel fac boxUnit pu s = some t ∧
+      systemRead fac eps (xmlNorm t) = some ⟨s.box, s.pbc, s.symbols, s.masses,
+        ⟨s.atoms.natoms, (s.select pu).atoms.props.map
+          (fun p => (p.1, ⟨p.2.shape, p.2.data.castU (effUnit p.1 (selUnit pu p.1))⟩))⟩⟩ := by
+  rw [systemModel_select fac boxUnit s pu hnd hmem]
+  exact system_model_roundtrip_xml fac eps boxUnit (s.select pu) hw (selUnit pu) hu hb hfb hf hdet
+
+end field
+
+/-- **select_wf**: a selection that names `atype` and `pos` first (then any distinct other properties of the
+    System, in any order) leaves a well-formed System: the hypothesis `hw` of `system_model_select` follows from
+    the invariants of the System itself. -/
+theorem select_wf (s : SystemM K) (hw : s.Wf) (ua up : Option String) (rest : List (String × Option String))
+    (hnd : (("atype", ua) :: ("pos", up) :: rest).map Prod.fst |>.Nodup)
+    (hmem : ∀ e ∈ rest, ∃ arr, s.atoms.props.lookup e.1 = some arr) :
+    (s.select (("atype", ua) :: ("pos", up) :: rest)).Wf := by
+  obtain ⟨la, lp, rs, hprops, hla⟩ := hw.atoms.head
+  have hA : s.atoms.props.lookup "atype" = some ⟨[s.atoms.natoms], .int la⟩ := by rw [hprops]; simp [List.lookup]
+  have hP : s.atoms.props.lookup "pos" = some ⟨[s.atoms.natoms, 3], .flt lp⟩ := by rw [hprops]; simp [List.lookup]
+  have hsel : (s.select (("atype", ua) :: ("pos", up) :: rest)).atoms.props =
+      ("atype", ⟨[s.atoms.natoms], .int la⟩) :: ("pos", ⟨[s.atoms.natoms, 3], .flt lp⟩) ::
+        rest.filterMap (fun e => (s.atoms.props.lookup e.1).map (fun arr => (e.1, arr))) := by
+    simp [SystemM.select, List.filterMap_cons, hA, hP]
+  have hall : ∀ e ∈ ("atype", ua) :: ("pos", up) :: rest, ∃ arr, s.atoms.props.lookup e.1 = some arr := by
+    intro e he
+    rcases List.mem_cons.mp he with rfl | he
+    · exact ⟨_, hA⟩
+    · rcases List.mem_cons.mp he with rfl | he
+      · exact ⟨_, hP⟩
+      · exact hmem e he
+  refine ⟨⟨⟨la, lp, _, hsel, hla⟩, ?_, ?_⟩, hw.pbc, ?_, hw.masses⟩
+  · -- names of the selection
+    have := congrArg (List.map Prod.fst) (select_props_units s _ hnd hall)
+    simp only [List.map_map, Function.comp_def] at this
+    rw [show (s.select (("atype", ua) :: ("pos", up) :: rest)).atoms.props.map Prod.fst
+        = (("atype", ua) :: ("pos", up) :: rest).map Prod.fst from this]
+    exact hnd
+  · intro p hp
+    obtain ⟨e, _, hq⟩ := List.mem_filterMap.mp hp
+    obtain ⟨arr, harr, rfl⟩ := Option.map_eq_some_iff.mp hq
+    exact hw.atoms.ok (e.1, arr) (mem_of_lookup _ _ _ harr)
+  · obtain ⟨nat, hnat, hle⟩ := hw.ntypes
+    refine ⟨nat, ?_, hle⟩
+    rw [← hnat]
+    simp [AtomsM.natypes, hsel, hprops, List.lookup]
+
+/-- non-vacuity: from the example System (tilted cell, non-zero origin, 5 properties) select `atype`, `pos`
+    (box-scaled), then `stress` (GPa) and `tag` in the opposite of their stored order, leaving `label` out: the
+    selection is admissible (`select_wf`) and what is kept is exactly the four selected properties in that order. -/
+def exSel : List (String × Option String) := [("atype", none), ("pos", some "scaled"), ("stress", some "GPa"), ("tag", none)]
+
+example : (exSys.select exSel).Wf :=
+  select_wf exSys exSys_wf none (some "scaled") [("stress", some "GPa"), ("tag", none)] (by decide)
+    (by intro e he; simp only [List.mem_cons, List.not_mem_nil, or_false] at he; rcases he with rfl | rfl <;> exact ⟨_, rfl⟩)
+
+example : (exSys.select exSel).atoms.props.map Prod.fst = ["atype", "pos", "stress", "tag"] := by decide +kernel
+example : (exSel.map Prod.fst).Nodup := by decide
+
+/-- **sysobj_edit_model_fresh**: after an in-place edit of a coordinate through the array the object hands out
+    (`system.atoms.pos[i, j] = v`) the object's model is the model of a freshly built `System` with the edited
+    content - whatever the history of its `Box` object: nothing written earlier is kept. -/
+theorem sysobj_edit_model_fresh [Field K] [LT K] [DecidableLT K] (fac : String → K) (eps : K) (boxUnit : Option String)
+    (pu : List (String × Option String)) (s : SysObj K) (h : BoxReach eps s.bobj) (i : Nat) (v : K) :
+    ((s.setPosAt i v).model fac boxUnit pu).1 = systemModel fac boxUnit pu (s.setPosAt i v).toSystem :=
+  (sysobj_model_fresh fac eps boxUnit pu (s.setPosAt i v) h).1
+
+end select
+
 end Atomman.C10
